@@ -1,7 +1,10 @@
 """C03 Billed attempt time is monotone and bounded by the attempt.
 
-The BEFORE UPDATE trigger on `attempts` touches its timestamps only through order comparisons, IS NULL tests and copies
-(checked syntactically, R0).  Its effect is therefore determined by the weak ordering + NULL pattern of the three OLD
+The BEFORE UPDATE trigger on `attempts` touches its timestamps only through order comparisons, IS NULL tests, copies and
+order-exact selections - GREATEST / LEAST (NULL if an argument is NULL), COALESCE / IFNULL, IF(), CASE, typed DECLAREd locals: each
+returns one of its inputs or NULL, chosen by comparisons of those inputs (checked syntactically with a small type system time / text /
+bool, R0; arithmetic, numeric literals, other functions, truthiness of a timestamp are declined).  Its effect is therefore determined
+by the weak ordering + NULL pattern of the three OLD
 timestamps and the fresh timestamp parameters a writer supplies, together with the reason values.  R1 executes the *parsed*
 trigger body over that finite order domain (engines/attemptfacts.py; MySQL three-valued logic) for every writer statement of the
 four columns found in the effective SQL program / embedded SQL, starting from every OLD row that satisfies the invariant Inv,
@@ -13,6 +16,12 @@ and checks the clauses of the statement on the stored row:
        activation timeout or establishes an end earlier than what was already billed
    (e) end' non-NULL  =>  billed' <= max(end' - start', 0)
    (f) start_time is never stored as the literal 0 (a default for a missing start would bill from 1970)
+   (g) a report that marks an activation timeout and is accepted as the end reason stores a row on which nothing is billed
+Clauses (b) and (d) exempt a report whose reason is 'activation_timeout' (the property's own vocabulary) or a literal for which the
+trigger erases a timestamp - wherever the erasure is written (IF statement or IF()/CASE expression in the trigger, or a conditional
+expression in the writer's SET list: the reason parameter inside a timestamp expression is typed as text and ranges over the reason
+domain).  WHERE conjuncts of a single-table writer that are decided by the OLD values of the four columns and the statement's own
+symbols are honoured (a rejected row makes no transition); other conjuncts are ignored (over-approximation).
 The value a writer assigns may be an expression over its parameters: it is evaluated symbolically per ordering class
 (NULL propagation of + - GREATEST LEAST, first non-NULL of COALESCE/IFNULL, IF/CASE on order predicates, max/min-of-linear-forms
 normal form that must collapse to one of the symbols: x + GREATEST(y - x, 0) = max(x, y) and is NULL when x is NULL);
@@ -20,7 +29,9 @@ expressions that are not order-domain values (constant offsets, products) are de
 the reason literals come from the Python call chains (followed through forwarding parameters).
 R2  the billed expression in both billing triggers is GREATEST(COALESCE(rollup - start, 0), 0)   (non-negativity)
 R3  every write of the four columns is an UPDATE of attempts (so the trigger runs); INSERT INTO attempts sets none of them
-R4  clauses (b) and (d) exempt reports whose reason makes the trigger erase a timestamp ('activation_timeout': bills nothing).  That is
+R4  clauses (b) and (d) exempt reports whose reason makes the UPDATE (writer expression + trigger) erase a timestamp ('activation_timeout':
+    bills nothing; the set is the trigger's syntactic erasures plus every literal the trigger or a writer singles out for which an
+    erasure is observed on some abstract transition).  That is
     only right for an instance that never activated: every Python call that names such a literal must be dominated, on some hop of the
     chain down to the CALL, by tests that confine <instance>.state to the states that precede activation (guard dominance: enclosing
     if-branches, earlier exiting ifs, asserts; single-definition locals expanded; and/or/not/in/== over string literals).
@@ -42,7 +53,7 @@ META = dict(
     category='proof',
     text='Exhaustive abstract execution of the parsed attempts_before_update trigger over the complete order domain (all weak orderings with NULLs of the '
          'OLD timestamps and each writer\'s fresh parameters, x reason patterns) for every writer statement found in the code; each (writer, clause) is an '
-         'obligation. Sound because the trigger uses timestamps only through comparisons and copies, so its behaviour is a function of the ordering.',
+         'obligation. Sound because the trigger uses timestamps only through comparisons, copies and selections among its inputs (GREATEST/LEAST/COALESCE/IF/CASE), so its behaviour is a function of the ordering.',
     note='Trusted: SQL parser and evaluator; MySQL BEFORE UPDATE semantics (NEW row = SET list applied to OLD, then the trigger); one arithmetic fact: '
          'max(r - s, 0) is monotone in r and antitone in s.  Parameter NULL-ness and reason values are taken from the Python call sites where resolvable, otherwise unconstrained. '
          'mark_job_errored is assumed to report an attempt that has not been billed yet (recorded assumption); R4 trusts that the in-memory instance state does not change between its test and the CALL.',
@@ -83,8 +94,17 @@ def billed_never_decreases(old: Dict[str, Any], new: Dict[str, Any]) -> bool:
 
 
 # ----------------------------------------------------------------------------------------------------
-def check_writer(ctx: Ctx, body: List[N], w: Writer, special: List[str], trig_file: str, zeroing: Dict[str, List[str]]) -> int:
+def billed_nothing(row: Dict[str, Any]) -> bool:
+    s, r = row['start_time'], row['rollup_time']
+    return s is None or r is None or r <= s
+
+
+def check_writer(ctx: Ctx, body: List[N], w: Writer, special: List[str], trig_file: str, zeroing: Dict[str, List[str]],
+                 erased: Optional[Dict[str, Set[str]]] = None) -> int:
+    """`zeroing`: reason literals for which the trigger itself erases a timestamp (syntactic).  `erased` collects, per reported reason
+    text, the timestamp columns some transition of this writer turns from a value into NULL (writer expression + trigger together)."""
     fails: Dict[str, Tuple] = {}
+    at_seen = False
     settled: Set[str] = set()      # clauses whose witness starts from a state real histories produce (reason set iff end set)
     count = 0
 
@@ -100,7 +120,16 @@ def check_writer(ctx: Ctx, body: List[N], w: Writer, special: List[str], trig_fi
         count += 1
         oreason = old['reason']
         rep_reason = new['reason']
-        exempt = rep_reason in zeroing     # the report marks an activation timeout (which bills nothing)
+        # the report marks an activation timeout (which bills nothing): the property's own reason text, or one the trigger singles out by erasing a timestamp (R4 then applies to it)
+        exempt = rep_reason == AT or rep_reason in zeroing
+        if erased is not None and isinstance(rep_reason, str):
+            for c in TIME_COLS:
+                if old[c] is not None and out[c] is None:
+                    erased.setdefault(rep_reason, set()).add(c)
+        if rep_reason == AT and oreason is None and out['reason'] == AT:
+            at_seen = True
+            if 'g' not in settled and not billed_nothing(out):
+                record('g', label, old, new, out)
         if 'a' not in settled and not inv(out):
             record('a', label, old, new, out)
         if 'b' not in settled and old['start_time'] is not None:
@@ -130,10 +159,14 @@ def check_writer(ctx: Ctx, body: List[N], w: Writer, special: List[str], trig_fi
         'd': 'billed duration max(rollup - start, 0) can decrease although the report neither is an activation timeout nor ends the attempt earlier than what was billed',
         'e': 'an ended attempt is billed beyond its end time',
         'f': 'start_time is stored as the constant 0 (1970-01-01) instead of a reported time: the attempt is billed rollup_time - 0, far beyond end - start of the real attempt',
+        'g': f'a report that marks an activation timeout (reason \'{AT}\', accepted as the end reason of an attempt that had none) leaves billed time max(rollup - start, 0) > 0 on the stored row: '
+             'an activation timeout bills nothing',
     }
     for clause, msg in texts.items():
         if clause == 'f' and clause not in fails:
             continue        # only meaningful for writers that can produce the constant; no instance otherwise
+        if clause == 'g' and not at_seen:
+            continue        # only writers that can report an activation timeout
         cons = f'{w.wid}::UPDATE attempts SET {", ".join(w.cols) or "<nothing>"}::clause ({clause})'
         if clause in fails:
             label, o, nw, out = fails[clause]
@@ -410,7 +443,7 @@ def r4_zeroing_reason_precondition(ctx: Ctx, prog: sf.SqlProgram, trig: sf.Routi
             where = f'the state of `{subj}` {may} (tests seen from {fr.label.split("::", 1)[1]} down to the CALL)'
         else:
             where = 'no enclosing or preceding test constrains the instance state on any hop of the chain'
-        ctx.bad('R4', cons, f'the reason \'{value}\' makes attempts_before_update set {", ".join(zeroing[value])} = NULL for every attempt the statement touches (billed time 0, not an error only for '
+        ctx.bad('R4', cons, f'the reason \'{value}\' makes the UPDATE (statement + attempts_before_update) store {", ".join(zeroing[value])} = NULL for the attempts the statement touches (billed time 0, not an error only for '
                 f'an instance that never activated, state in {sorted(pending)}); {where}. Chain: {chain}.{wit}', src.m.path, src.call.lineno,
                 extra={'chain': chain, 'reason': value})
 
@@ -451,28 +484,54 @@ def _chain_precondition(frames: Tuple[af.Frame, ...], pending: Set[str]) -> Tupl
 def r0_syntactic(ctx: Ctx, r: sf.Routine) -> None:
     a = r.ast
     ctx.need(a.rkind == 'trigger' and a.timing == 'BEFORE' and a.event == 'UPDATE' and a.table.lower() == 'attempts', 'attempts_before_update is not BEFORE UPDATE ON attempts')
+    where = 'attempts_before_update'
+
+    locals_: Dict[str, str] = {}        # DECLAREd locals: name -> 'time' | 'text' | 'bool'
+
+    def col_ok(n: N) -> Optional[str]:
+        if len(n.parts) == 2 and n.parts[0].upper() in ('OLD', 'NEW') and n.parts[1].lower() in COLS:
+            return 'text' if n.parts[1].lower() == 'reason' else 'time'
+        if len(n.parts) == 1:
+            return locals_.get(n.parts[0].lower())
+        return None
+
+    def assign(tt: str, t_text: str, v: N) -> None:
+        if tt == 'bool':
+            af.order_exact_cond(v, where, col_ok)
+            return
+        vt = af.order_exact_value(v, where, col_ok)
+        if vt not in (tt, 'null'):
+            raise AnalysisError(f'{where}: `{t_text}` is assigned the {vt} value `{text(v)}` (order abstraction not applicable)')
+    selections = 0
     for st in sf.all_statements(a.body):
-        exprs: List[N] = []
         if st.kind == 'if':
-            exprs += [c for c, _ in st.branches]
+            for c, _ in st.branches:
+                af.order_exact_cond(c, where, col_ok)
+        elif st.kind == 'declare':
+            lt = af.local_type(st.type)
+            if lt is None:
+                raise AnalysisError(f'{where}: local variable of type {st.type} is not modelled')
+            if st.default is not None:
+                assign(lt, ', '.join(st.names), st.default)
+            for nm in st.names:
+                locals_[nm.lower()] = lt
         elif st.kind == 'set':
             for t, v in st.assigns:
-                exprs.append(v)
-                if not (v.kind in ('col', 'lit')):
-                    raise AnalysisError(f'attempts_before_update: assigns a computed value `{text(v)}` (order abstraction not applicable)')
-        elif st.kind not in ('if', 'set'):
-            raise AnalysisError(f'attempts_before_update: statement kind {st.kind} outside the analysed fragment')
-        for e in exprs:
-            for n in e.walk():
-                if n.kind == 'bin' and n.op in ('+', '-', '*', '/', 'DIV', '%', 'MOD'):
-                    raise AnalysisError(f'attempts_before_update: arithmetic on timestamps `{text(n)}` (order abstraction not applicable)')
-                if n.kind in ('func', 'subq', 'exists', 'cast'):
-                    raise AnalysisError(f'attempts_before_update: `{text(n)}` outside the analysed fragment')
-                if n.kind == 'col':
-                    ok = len(n.parts) == 2 and n.parts[0].upper() in ('OLD', 'NEW') and n.parts[1].lower() in COLS
-                    if not ok:
-                        raise AnalysisError(f'attempts_before_update reads `{text(n)}`; only OLD./NEW. start_time, end_time, rollup_time, reason are modelled')
-    ctx.ok('R0', f'{r.file}::attempts_before_update::comparisons and copies only')
+                if t.kind == 'col' and len(t.parts) == 1 and t.parts[0].lower() in locals_:
+                    assign(locals_[t.parts[0].lower()], text(t), v)
+                    selections += v.kind not in ('col', 'lit')
+                    continue
+                if not (t.kind == 'col' and len(t.parts) == 2 and t.parts[0].upper() == 'NEW' and t.parts[1].lower() in COLS):
+                    raise AnalysisError(f'{where}: assigns `{text(t)}`; only NEW. start_time, end_time, rollup_time, reason are modelled')
+                vt = af.order_exact_value(v, where, col_ok)
+                tt = 'text' if t.parts[1].lower() == 'reason' else 'time'
+                if vt not in (tt, 'null'):
+                    raise AnalysisError(f'{where}: `{text(t)}` is assigned the {vt} value `{text(v)}` (order abstraction not applicable)')
+                selections += v.kind not in ('col', 'lit')
+        else:
+            raise AnalysisError(f'{where}: statement kind {st.kind} outside the analysed fragment')
+    ctx.extra_cov['trigger_selection_expressions'] = selections
+    ctx.ok('R0', f'{r.file}::attempts_before_update::comparisons and copies only', {'selection_expressions': selections, 'typed_locals': dict(locals_)})
 
 
 def r2_billed_expr(ctx: Ctx, prog: sf.SqlProgram) -> None:
@@ -525,14 +584,14 @@ def run(ctx: Ctx) -> None:
     ctx.explanation = ('Abstract execution of the parsed BEFORE UPDATE trigger over all weak orderings (with NULLs) of OLD timestamps and writer parameters x reason patterns, '
                        'for each writer statement of attempts.{start,end,rollup}_time/reason found in the effective SQL program and embedded SQL; value expressions of the writers '
                        'are evaluated symbolically per ordering class (NULL propagation, max/min normal form).')
-    ctx.rule('R0', 'the trigger uses timestamps only via comparisons, IS NULL and copies (so the order domain is exact)', 1)
-    ctx.rule('R1', 'for every writer and every order/NULL/reason pattern from an Inv-state: clauses (a)-(e) hold on the stored row', 35)
+    ctx.rule('R0', 'the trigger uses timestamps only via comparisons, IS NULL, copies and order-exact selections (GREATEST/LEAST/COALESCE/IF/CASE, typed locals), so the order domain is exact', 1)
+    ctx.rule('R1', 'for every writer and every order/NULL/reason pattern from an Inv-state: clauses (a)-(e) hold on the stored row ((f) no epoch start, (g) an accepted activation timeout bills nothing)', 36)
     ctx.rule('R2', 'billed duration expression is GREATEST(COALESCE(rollup - start, 0), 0) in both billing triggers', 2)
     ctx.rule('R3', 'the four columns are only written through UPDATE attempts; INSERT INTO attempts sets none of them', 1)
-    ctx.rule('R4', 'a reason for which the trigger erases a timestamp (activation timeout: bills nothing) is reported only on call chains that establish that the instance never activated', 1)
+    ctx.rule('R4', 'a reason for which the trigger or a writer expression erases a timestamp (activation timeout: bills nothing) is reported only on call chains that establish that the instance never activated', 1)
     ctx.assume('MySQL BEFORE UPDATE: NEW = OLD overlaid with the SET list (single-table UPDATE: assignments apply left to right); the trigger may rewrite NEW; the stored row is NEW after the trigger')
     ctx.assume('max(r - s, 0) is monotone in r and antitone in s (the only arithmetic fact used)')
-    ctx.assume('MySQL: + - GREATEST LEAST return NULL if any argument is NULL; COALESCE/IFNULL return the first non-NULL argument; reported timestamps are positive (a literal 0 is below all of them)')
+    ctx.assume('MySQL: + - GREATEST LEAST return NULL if any argument is NULL; COALESCE/IFNULL return the first non-NULL argument; IF()/CASE take the first branch whose condition is TRUE (NULL counts as not true); reported timestamps are positive (a literal 0 is below all of them)')
     ctx.assume('R4: the in-memory instance state tested by the driver is not changed between the test and the CALL (no activation in between)')
     prog = sf.load_program()
     trig = prog.routine('attempts_before_update')
@@ -543,14 +602,24 @@ def run(ctx: Ctx) -> None:
     ws = find_writers(ctx, prog)
     af.refine_from_callers(ctx, prog, ws)
     ctx.need(len(ws) >= 7, f'only {len(ws)} writers of attempts found')
-    total = 0
     for w in ws:
-        total += check_writer(ctx, body, w, special, trig.file, zeroing)
+        special += [l for l in w.reason_lits if l not in special]      # literals a writer's own SET expressions test the reason against
+    total = 0
+    erased: Dict[str, Set[str]] = {}
+    for w in ws:
+        total += check_writer(ctx, body, w, special, trig.file, zeroing, erased)
+    # reasons the code singles out (a literal in the trigger or in a writer expression) AND for which a timestamp is actually erased on some transition:
+    # whatever form the erasure takes (IF statement, IF()/CASE expression, in the trigger or in the writer), R4 applies to them
+    erasing = {lit: list(cols) for lit, cols in zeroing.items()}
+    for lit in special:
+        for c in sorted(erased.get(lit, ())):
+            if c not in erasing.setdefault(lit, []):
+                erasing[lit].append(c)
     ctx.unit('writer_statements', len(ws))
     ctx.unit('abstract_executions', total)
     ctx.extra_cov['writers'] = [{'writer': w.wid, 'sets': w.sets, 'call_chains': [{'chain': l, 'param_classes': c, 'fresh_attempt': f, 'reasons': sorted(map(str, r)) if r is not None else 'any'}
                                                                                    for l, c, f, r in w.variants]} for w in ws]
     ctx.extra_cov['reason_literals_in_trigger'] = special
-    ctx.extra_cov['timestamp_erasing_reasons'] = zeroing
+    ctx.extra_cov['timestamp_erasing_reasons'] = erasing
     r2_billed_expr(ctx, prog)
-    r4_zeroing_reason_precondition(ctx, prog, trig, ws, zeroing, special)
+    r4_zeroing_reason_precondition(ctx, prog, trig, ws, erasing, special)
